@@ -129,7 +129,21 @@ RawCases ==
                                               GetPre \o <<37, 49, 13, 10, 36, 49, 13, 10, 97, 13, 10, 36, 49, 13, 10, 98, 13, 10>>,
                                               GetPre \o <<35, 116, 13, 10>>, GetPre \o <<44, 49, 46, 53, 13, 10>>, GetPre \o <<58, 53, 13, 10>>,
                                               <<36, 51, 13, 10, 71, 69, 84, 13, 10>>, <<43, 79, 75, 13, 10>>} } }
-ASSUME PrintT(ToJson([rawcases |-> {[raw |-> rc.raw, reply |-> rc.reply, known |-> IF rc.known \in OpenDev THEN rc.known ELSE "none"] : rc \in RawCases}]))
+\* RESP3 streamed forms: strings / blob errors of unknown length ($? / !? followed by ;<len> chunks, ended by ;0) and
+\* aggregates of unknown length (*? %? ~? >? ended by .), with every chunk length of Lens, truncated, unterminated,
+\* at top level, as the only array element, and as the argument of GET
+StreamPre == {<<>>, <<42, 49, 13, 10>>, GetPre}
+StreamedCases ==
+    UNION {
+      {[raw |-> pre \o <<t, 63>> \o CRLF2 \o <<59>> \o l \o CRLF2 \o tl, reply |-> FALSE, known |-> "none"] :
+          pre \in StreamPre, t \in {36, 33}, l \in Lens, tl \in {<<>>, <<120, 13, 10>>, <<120, 13, 10, 59, 48, 13, 10>>, <<59, 48, 13, 10>>}},
+      {[raw |-> pre \o <<t, 63>> \o CRLF2 \o body, reply |-> FALSE, known |-> "none"] :
+          pre \in StreamPre, t \in {42, 37, 126, 62, 36, 33},
+          body \in {<<>>, <<46, 13, 10>>, <<36, 49, 13, 10, 97, 13, 10, 46, 13, 10>>, <<58, 49, 13, 10>>, <<59, 45, 50, 13, 10>>, <<59, 13, 10>>, <<46>>,
+                    <<36, 63, 13, 10, 59, 45, 49, 13, 10>>, <<42, 63, 13, 10, 46, 13, 10, 46, 13, 10>>}},
+      \* a well-formed command whose arguments are streamed strings: GET a
+      {[raw |-> <<42, 50, 13, 10, 36, 63, 13, 10, 59, 51, 13, 10, 71, 69, 84, 13, 10, 59, 48, 13, 10, 36, 63, 13, 10, 59, 49, 13, 10, 97, 13, 10, 59, 48, 13, 10>>, reply |-> FALSE, known |-> "none"]} }
+ASSUME PrintT(ToJson([rawcases |-> {[raw |-> rc.raw, reply |-> rc.reply, known |-> IF rc.known \in OpenDev THEN rc.known ELSE "none"] : rc \in RawCases \cup StreamedCases}]))
 
 VARIABLES hc, ht
 ivars == <<S, step, op, devs, hc, ht>>
